@@ -31,8 +31,10 @@ PROP = dict(
         "syllable at a non-first child position panicked entries()) are repaired in the repository: Trie::new runs validate_index and "
         "returns Err. The traversal theorems therefore carry the hypothesis `validate t = true` — not an assumption about the file but "
         "the check the code performs (modelled, in correspondence); validation_needed proves the statements false without it",
-        "known finding F39 (dictionary-file form): an entry under the empty key makes every conversion abort (oracle only: the "
-        "conversion engine is not part of this model)",
+        "known finding F39 (dictionary-file form): a hand-made or corrupt dictionary FILE with an entry under the empty key makes "
+        "every conversion abort (oracle only: the conversion engine is not part of this model). The tools no longer produce such a "
+        "file: chewing-cli init-database rejects a source line without syllables (C20 F27 no-syllables, fixed) and the uhash import "
+        "skips records with syllable count 0",
         "F40 (a stored phrase frequency within reach of u32::MAX aborted the first commit that learns the phrase: add with overflow in "
         "estimate.rs) is repaired in the repository (saturating_add); stored_freq_never_overflows is stated over C08's estimate model, which "
         "the translator ties to the saturating form; the witness file stays in the harness and has no oracle class any more",
@@ -58,8 +60,9 @@ MANIFEST = dict(
          "reports any panic, abort, watchdog timeout, result larger than the file, or an accepted index that is not a breadth-first tree.",
     note="F14/F15/F39(legacy)/F26, F40 and F16/F17 were repaired by fix: commits and are proved absent in the model of the repaired "
          "code (witnesses kept as theorems about the pre-fix decoder / the unvalidated walk). Still recorded: F39 (dictionary-file "
-         "form) — a file, even one TrieBuilder wrote, holding an entry under the empty key makes every conversion abort; it is a valid "
-         "file (C11 proves it reads back), so the repair belongs to the conversion engine (C03's NoEmptyKey hypothesis), not to the "
-         "validation. A rejected user dictionary makes chewing_new2 return NULL and is left untouched on disk (never overwritten).",
+         "form) — a hand-made or corrupt file (e.g. one written directly through TrieBuilder::insert(&[], ..)) holding an entry under the "
+         "empty key makes every conversion abort; it is a valid file (C11 proves it reads back), so the repair belongs to the conversion "
+         "engine (C03's NoEmptyKey hypothesis), not to the validation. The dictionary compiler no longer produces one: chewing-cli "
+         "init-database reports a source line without syllables (C20, F27 no-syllables fixed). A rejected user dictionary makes chewing_new2 return NULL and is left untouched on disk (never overwritten).",
     technique="Lean 4 proof (induction over records/lines/threads, potential-function termination argument with subtree-size weights, BFS frontier invariant) + systematic model-implementation correspondence with watchdog child processes",
 )
